@@ -7,6 +7,7 @@ use std::io::{BufRead, BufWriter, Write};
 mod c02;
 mod c13;
 mod world;
+mod hot;
 pub mod util;
 
 fn main() {
@@ -21,6 +22,7 @@ fn main() {
         "c02" => c02::run_case,
         "c13" => c13::run_case,
         "world" => world::run_case,
+        "hot" => hot::run_case,
         p => {
             eprintln!("unknown property {}", p);
             std::process::exit(2);
